@@ -253,9 +253,16 @@ def r4(run, ctx):
         run.check('R4', bool(fin), 'the close is in a finally (also when terminate() raises)', pst,
                   cl[0].ast, 'an exception while terminating skips the pipe close')
     cc = ctx.fn(P + 'close_output_channels')
-    t = norm_text(cc.node)
-    run.check('R4', 'self._worker.stderr.close()' in t and 'self._worker.stdout.close()' in t,
-              'close_output_channels closes stdout and stderr', cc, cc.node)
+    from sa.dataflow import reaching_defs
+    rdc = reaching_defs(ctx, cc)
+    closed = set()
+    for n in ctx.live_nodes(cc):
+        for c in n.calls():
+            if astq.call_last(c) == 'close' and isinstance(c.func, ast.Attribute) and not c.args:
+                closed |= {a.text() for a in rdc.expand(n, c.func.value)}
+    run.check('R4', {'self._worker.stderr', 'self._worker.stdout'} <= closed,
+              'close_output_channels closes stdout and stderr', cc, cc.node,
+              'close_output_channels closes %s' % sorted(closed))
     st = ctx.fn(W + '_stop')
     cfg = ctx.cfg(st)
     rs = ctx.nodes_calling(st, [R + 'stop'])
